@@ -36,6 +36,15 @@
 #define VERIF_FAMS ( 32 | 128 )
 #endif
 #define VERIF_CTLS ( 1 << ACT_CTL )
+#elif defined( SPACE_ATOMS )
+// library atoms (ascii convenience + contrib) under every one-level context, on guard-paged inputs; -DATOMS_LAZY=0|1
+#define VERIF_K 3
+#define VERIF_GROUPS ( T::G_CORE | T::G_ATOM2 | T::G_ATOM3 | T::G_CONTRIB | T::G_POS )
+#define VERIF_FAMS ( 1 | 2 )
+#define VERIF_CTLS 1
+#if ATOMS_LAZY
+#define VERIF_TRACK p::tracking_mode::lazy
+#endif
 #elif defined( SPACE_POS )
 // -DVERIF_TRACK=... -DVERIF_EOL=... -DVERIF_EOL_KIND=n -DPOS_LAZY=0|1 come from the registry
 #define VERIF_K 3
@@ -64,6 +73,8 @@ struct Phase
    bool need_hole = false;
    int max_holes = 99;
    std::vector< std::array< size_t, 3 > > counters = { { 0, 1, 1 } };  // initial byte, line, column of the input
+   std::vector< int > buf_modes = { 0 };  // 0 heap, 1 guard page after the input, 2 guard page before it
+   std::vector< std::string > extra_inputs;
    bool flat_inner = false;  // rules other than the root may only have HOLE / atom children (depth-2 trees, shared leaves allowed)
 };
 
@@ -275,6 +286,45 @@ struct Space
          p.cfgs = cfg_product( { 7 }, { ACT_CTL }, { 1 }, { 1, 0 } );
 #endif
          phases.push_back( p );
+      }
+#elif defined( SPACE_ATOMS )
+      result_prop = "C09";
+      check_positions = true;
+      {
+         // each family of atoms with its own alphabet, as root, and one level below every classical operator
+         struct Fam
+         {
+            const char* name;
+            std::vector< const char* > atoms;
+            std::string sigma;
+            int L;
+            std::vector< std::string > extra;
+         };
+         const std::string a41( 41, 'a' ), a42( 42, 'a' ), a43( 43, 'a' );
+         const std::vector< Fam > fams = {
+            { "atoms_integer", { "INT_U", "INT_S", "INT_MAX8", "INT_MAX300" }, "0125-+x", thorough ? 5 : 4, { "255", "256", "299", "300", "301", "2550", "65536", "-255x", "+300", "0300" } },
+            { "atoms_raw_string", { "RAW" }, "[=]\nx", thorough ? 8 : 6, {} },
+            { "atoms_ascii", { "KEYWORD_AB", "IDENTIFIER", "TWO_A", "THREE_A", "RANGES_ACX", "REP_STRING2_AB", "ROMM12_A", "ROMM02_A", "ROMM22_A", "ROMM00_A", "PRED_AND", "PRED_NOT", "PRED_OR", "ISTRING_AB", "STRING_AB", "BYTES2", "EVERYTHING" }, "abAc_1", thorough ? 5 : 4, {} },
+            { "atoms_lines", { "SHEBANG", "EOL", "EOLF", "UTF8_ANY", "STRING_CRLF", "BOF" }, std::string( "#!a\n\r\xC3\xA9" ), thorough ? 5 : 4, {} },
+            { "atoms_forty_two", { "FORTY_TWO_A" }, "a", 0, { a41, a42, a43, a42 + "b", a41 + "b", "b" + a42, a41 + "ba" } },
+         };
+         for( const auto& f : fams ) {
+            Phase p;
+            p.name = f.name;
+            p.root = { CORE_OPS };
+            for( auto a : f.atoms ) p.root.push_back( a );
+            p.inner = { "ANY", "EOF_" };
+            for( auto a : f.atoms ) p.inner.push_back( a );
+            p.N = 3;
+            p.flat_inner = true;
+            p.L = f.L;
+            p.sigma = f.sigma;
+            p.extra_inputs = f.extra;
+            p.buf_modes = { 1, 2 };
+            p.counters = { { 0, 1, 1 } };
+            p.cfgs = cfg_product( { 0, 1 }, { 0 }, { 1 }, { 1, 0 } );
+            phases.push_back( p );
+         }
       }
 #elif defined( SPACE_POS )
       result_prop = "C06";
